@@ -285,11 +285,18 @@ class Ctx:
         self.strs = list(strs or [])
         self.funs = list(funs or [])      # (name, arity), functions returning strings
         self.captured = False
+        self.noassign = set()             # parameters that shadow a tracked name: never assignment targets
+                                          # (assigning them an untracked identifier is the nested_delete defect, or,
+                                          # in a function expression, un-registers the outer alias)
 
     def copy(self):
         c = Ctx(self.aliases, self.strs, self.funs)
         c.captured = self.captured
+        c.noassign = set(self.noassign)
         return c
+
+    def targets(self):
+        return [s for s in self.strs if s not in self.noassign]
 
 
 class Gen:
@@ -363,8 +370,8 @@ class Gen:
         for _ in range(rng.randrange(0, 3)):
             r = rng.random()
             al = [a for a in ctx.aliases if a != "inputs"]
-            if r < 0.4 and ctx.strs:
-                out.append(["expr", ["assign", rng.choice(ctx.strs), self.g_str(ctx, 2)]])
+            if r < 0.4 and ctx.targets():
+                out.append(["expr", ["assign", rng.choice(ctx.targets()), self.g_str(ctx, 2)]])
             elif r < 0.6 and al and "inputs" in ctx.aliases:
                 out.append(["expr", ["assign", rng.choice(al), ["id", "inputs"]]])
             elif r < 0.8 and d < 2:
@@ -378,6 +385,8 @@ class Gen:
         rng = self.rng
         c = ctx.copy()
         for p in params:
+            if p in c.aliases or p == "inputs":
+                c.noassign.add(p)
             if p in c.aliases:
                 c.aliases.remove(p)
             if p not in c.strs:
@@ -424,8 +433,8 @@ class Gen:
                 v = self.fresh("s")
                 out.append(["vari", v, self.g_str(ctx, 1)])
                 ctx.strs.append(v)
-            elif r < 0.3 and ctx.strs:
-                out.append(["expr", ["assign", rng.choice(ctx.strs), self.g_str(ctx, 1)]])
+            elif r < 0.3 and ctx.targets():
+                out.append(["expr", ["assign", rng.choice(ctx.targets()), self.g_str(ctx, 1)]])
             elif r < 0.5:
                 v = self.fresh("x")
                 out.append(["var", v])
@@ -575,23 +584,23 @@ class C31(Prop):
     CORR_MODULE = "JsDeps.Corr"
     LEVEL = "proof"
     LEVEL_TEXT = ("Theorems (Coq, closed under the global context) over a model of CWLDependencyListener/NamesStack/"
-                  "regex_eval and an instrumented big-step evaluator of an ES5 fragment: for every program of the "
-                  "function-free fragment with tracked aliasing (C31_sound_partial: dot and quoted-bracket access on "
-                  "identifiers, var, assignment, +, ?:, if/else, return, any nesting and length) the analysis does not fail "
-                  "and every field of inputs read by any terminating evaluation on any inputs object is in the dependency "
-                  "set; the same for every parameter reference; and machine-checked counterexamples (C31_*_refuted) for "
-                  "computed access, aliasing through var initialisers / function parameters / returns / closures / inner "
-                  "scopes, parenthesised bases, reserved-word fields, quote stripping, branch-insensitive alias deletion and "
-                  "a KeyError in nested scopes. The model is tied to /repo by running resolve_dependencies and the model "
-                  "listener on generated expressions, and to JavaScript by comparing the model evaluator's read set with "
-                  "node's (Proxy around inputs).")
-    LEVEL_NOTE = ("partial: soundness is proved for the function-free fragment only; programs with function declarations/"
-                  "expressions/calls are exercised by the correspondence and the oracle, not proved. Trusted: Coq kernel + "
+                  "regex_eval and an instrumented big-step evaluator of an ES5 fragment: for every parameter reference "
+                  "rooted at inputs with a symbol/quoted first segment, on every inputs object, every terminating "
+                  "evaluation reads only fields of the dependency set (C31_paramref_sound, unbounded segment lists); and "
+                  "machine-checked counterexamples (C31_*_refuted) showing that the property text is FALSE of the "
+                  "analysis for JavaScript: computed access and a nested-scope assignment make it raise, and aliasing "
+                  "through var initialisers / chained assignment / parenthesised bases / function parameters / returns / "
+                  "closures / inner scopes, branch-insensitive alias deletion, reserved-word fields and quote stripping "
+                  "lose reads. Soundness of the analysis on well-tracked JavaScript programs is NOT proved: it is only "
+                  "exercised by the correspondence (model listener = resolve_dependencies, model evaluator's read set = "
+                  "node's with a Proxy around inputs) and by the oracle on generated programs.")
+    LEVEL_NOTE = ("partial: the positive half is proved for parameter references only; for JavaScript bodies only the "
+                  "counterexamples are theorems, the tracked fragment is exercised, not proved. Trusted: Coq kernel + "
                   "vm_compute; the hand-written model JsDeps/Model.v; the harness' printer (AST -> JS text) and the ANTLR "
                   "parser (text -> parse tree) are not modelled; node 20 and cwl_utils' scanner/regex_eval are reference "
                   "oracles. No axioms.")
-    TECHNIQUE = ("Coq proof (simulation invariant between the listener's name set and the evaluator's store, by induction "
-                 "on evaluation fuel) + vm_compute correspondence against resolve_dependencies and node")
+    TECHNIQUE = ("Coq proof (induction over reference segments; kernel-computed counterexamples) + vm_compute "
+                 "correspondence against resolve_dependencies and node")
     RULE = ("structured expressions: well-tracked programs (aliases via assignment, re-binding, if/else, ternaries, "
             "function declarations/expressions with shadowing parameters and nesting, expressionLib functions, string "
             "literals mentioning inputs), parameter references (dot/single/double/index segments, escaped quotes, "
